@@ -9,9 +9,11 @@ def plan(tier, seed):
     if tier == 'quick':
         shapes = [(0, 1), (1, 0), (1, 1), (0, 2), (2, 1), (1, 2)]
         lens, cap, tails, ctxs, nlens = [0, 1, 2], 3, ['', ' t'], range(7), [1]
+        thin = 1
     else:
         shapes = [(0, 1), (1, 0), (1, 1), (0, 2), (2, 1), (1, 2), (2, 2), (3, 1), (0, 3), (1, 3), (0, 4), (3, 2)]
         lens, cap, tails, ctxs, nlens = [0, 1, 2, 3], 4, ['', ' t', '{u}'], range(8), [1, 2]
+        thin = 6        # every sixth (shape, separators, tail) combination, rotating with the seed
     for ci in ctxs:
         for nb, nc in shapes:
             if ci == 6 and nb > 0:
@@ -21,6 +23,9 @@ def plan(tier, seed):
                     continue
                 for tail in tails:
                     for nl in nlens:
+                        if thin > 1 and (bi + seed) % thin:
+                            bi += 1
+                            continue
                         if nl == 2 and (bi % 3):
                             bi += 1
                             continue
